@@ -50,6 +50,9 @@ func CheckFilePermissionsForExecution(filePath string) (bool, error) {
 }
 
 func ReadIntFromFile(path string) (value int, err error) {
+	if handled, v, err := verifFileOp("read", path, 0); handled {
+		return v, err
+	}
 	data, err := os.ReadFile(path)
 	if err != nil {
 		return -1, err
@@ -65,6 +68,9 @@ func ReadIntFromFile(path string) (value int, err error) {
 
 // WriteIntToFile write a single integer to a file.go path
 func WriteIntToFile(value int, path string) error {
+	if handled, _, err := verifFileOp("write", path, value); handled {
+		return err
+	}
 	evaluatedPath, err := resolvePath(path)
 	if len(evaluatedPath) > 0 && err == nil {
 		path = evaluatedPath
@@ -80,6 +86,9 @@ func resolvePath(path string) (string, error) {
 }
 
 func WriteIntToFileAtomic(value int, path string) error {
+	if handled, _, err := verifFileOp("write-atomic", path, value); handled {
+		return err
+	}
 	evaluatedPath, err := resolvePath(path)
 	if len(evaluatedPath) > 0 && err == nil {
 		path = evaluatedPath
